@@ -1,6 +1,7 @@
 package main
 
 import (
+	"bytes"
 	"fmt"
 	"math/big"
 	"strings"
@@ -107,12 +108,24 @@ func c12RenderDec(g *G, d c12Dv) string {
 }
 
 func c12RenderBig(g *G, b *big.Int) string {
-	switch g.R.Intn(4) {
+	switch g.R.Intn(7) {
 	case 0:
 		return b.String()
 	case 1:
 		if b.Sign() > 0 {
 			return `"0x` + b.Text(16) + `"`
+		}
+	case 2:
+		// zero-padded decimal text is still decimal (not octal): "0100" is one hundred
+		abs := new(big.Int).Abs(b).String()
+		pad := strings.Repeat("0", 1+g.R.Intn(3))
+		if b.Sign() < 0 {
+			return `"-` + pad + abs + `"`
+		}
+		return `"` + pad + abs + `"`
+	case 3:
+		if b.Sign() > 0 {
+			return `"+` + b.String() + `"`
 		}
 	}
 	return `"` + b.String() + `"`
@@ -533,6 +546,11 @@ func genStreamlined(g *G) {
 		for _, va := range []uint64{0, 1, 1 << 31, 1 << 32, 1<<63 + 3, 1<<64 - 1} {
 			c12EmitEncode(g, mk(nil, [][]c12Enc1{{{"uint8", nil}}}), ch^0x80000001, evmReportJ(ch, va, va+1, false, []any{c12DecSV(c12Dv{c12Bi(7), 0})}), false, "header")
 			c12EmitEncode(g, mk(c12RandFeed(g), nil), 0, evmReportJ(ch, va, va+1, true, nil), false, "header")
+		}
+		// a configured feed id is written as configured — the all-zero one and its neighbours included (only an
+		// ABSENT feed id selects the format/channel header)
+		for _, feed := range [][]byte{make([]byte, 32), append(make([]byte, 31), 1), append([]byte{1}, make([]byte, 31)...), bytes.Repeat([]byte{0xff}, 32)} {
+			c12EmitEncode(g, mk(feed, [][]c12Enc1{{{"uint8", nil}}}), ch^0x80000001, evmReportJ(ch, 5, 6, false, []any{c12DecSV(c12Dv{c12Bi(7), 0})}), false, "header", "feed-id-edge")
 		}
 	}
 	// timestamps of timestamped values at the edges of uint64 and of narrower types
@@ -985,6 +1003,12 @@ func genImplOnly(g *G) {
 		`{"feedID":"` + feed + `","baseUSDFee":"1e99999999999"}`, `{"feedID":"` + feed + `","multiplier":"abc"}`,
 		`{"feedID":"` + feed + `","abi":[{"type":"uint8","multiplier":"x"}]}`, `{"feedID":"` + feed + `","abi":[5]}`,
 		`{"feedID":"` + feed + `","abi":{"type":"uint8"}}`, `{"feedID":"` + feed + `","abi":[{"type":5}]}`,
+	}
+	// multipliers in spellings that are NOT numbers for this codec (hex needs digits and no leading zero; no
+	// exponents, separators or spaces): all refused, cheaply, never a panic
+	for _, m := range []string{`"0x"`, `"0X"`, `"0xzz"`, `"0x0123"`, `"0x"`, `"1e3"`, `"1E3"`, `"1e10000000"`, `"1e2000000000"`, `"1_000"`, `" 5"`, `"5 "`, `"1.0"`, `"0b101"`, `"0o17"`, `""`, `"-"`, `"0x-5"`,
+		`"0x1` + strings.Repeat("0", 70) + `"`} {
+		bad = append(bad, `{"feedID":"`+feed+`","multiplier":`+m+`}`, `{"feedID":"`+feed+`","abi":[{"type":"int192","multiplier":`+m+`}]}`)
 	}
 	for _, kind := range []string{"premium", "unpacked", "streamlined"} {
 		for _, t := range bad {
